@@ -31,6 +31,8 @@ SHAPES = {
             "ext": "newtop"},
     "deep": {"shallow": ["deep"], "program": "deep2", "edits": [("leafA", 1), ("mid", 2), ("top", 2), ("leafB", 1)]},
     "nested": {"shallow": ["top", "mid"], "program": "deep", "edits": [("leafA", 1), ("plus", 1), ("mid", 2)], "ext": "newtop"},
+    # a task without provenance beneath the shallow call, with further tasks beneath it
+    "noprov": {"shallow": ["top"], "noprov": ["mid"], "program": "deep", "edits": [("leafA", 1), ("plus", 1), ("leafB", 1)]},
     "guarded": {"shallow": ["guarded"], "program": "guardedmix", "edits": [("leafA", 1), ("recover", 1)]},
 }
 
@@ -39,6 +41,8 @@ def config(shape):
     cfg = {n: {"variant": 0, "versioned": n in ("leafB",)} for n in hist.BODY}
     for n in SHAPES[shape]["shallow"]:
         cfg[n]["options"] = {"check_valid": "shallow"}
+    for n in SHAPES[shape].get("noprov", []):
+        cfg[n]["options"] = {"prov": False}
     return cfg
 
 
